@@ -13,7 +13,17 @@ from .vals import (
 )
 
 
+_SA_CACHE: dict = {}
+
+
 def _self_assignments(ci: ClassInfo, attr):
+    key = (id(ci), attr)
+    if key not in _SA_CACHE:
+        _SA_CACHE[key] = _self_assignments_uncached(ci, attr)
+    return _SA_CACHE[key]
+
+
+def _self_assignments_uncached(ci: ClassInfo, attr):
     """All `self.<attr> = RHS` / annotated assignments in methods of the MRO:
     [(class, method FuncInfo, stmt)]"""
     out = []
